@@ -38,6 +38,9 @@ func opDurUn(r *hx.Run, old int64, t []byte) {
 		x := claircore.Duration(old)
 		buf := append([]byte(nil), t...)
 		if err := x.UnmarshalText(buf); err != nil {
+			if int64(x) != old {
+				r.Fail("", fmt.Sprintf("Duration.UnmarshalText(%q) failed and changed its receiver from %d to %d", t, old, int64(x)))
+			}
 			return "err " + strconv.FormatInt(int64(x), 10)
 		}
 		return "ok " + strconv.FormatInt(int64(x), 10)
